@@ -5,7 +5,9 @@ import (
 )
 
 func mergeDocs(doc, patch *Document) error {
-	merged, err := merge(doc.Data, patch.Data)
+	// Each target gets its own copy of the patch: merge() consumes and
+	// aliases its source, and one patch may be applied to several documents.
+	merged, err := merge(doc.Data, copyTree(patch.Data))
 	if err != nil {
 		return err
 	}
